@@ -170,6 +170,16 @@ class World:
         if k == "execute_string":
             curs = conn.execute_string(op["sql"])
             return {"ok": True, "results": [{"rows": norm_rows(c.fetchall()), "rowcount": c.rowcount} for c in curs]}
+        if k == "write_pandas":
+            import pandas as pd
+            import snowflake.connector.pandas_tools as pt
+
+            from fakesnow.pandas_tools import write_pandas as fake_wp
+
+            df = pd.DataFrame(op["rows"], columns=op["cols"])
+            fn = pt.write_pandas if type(pt.write_pandas).__name__ == "MagicMock" else fake_wp  # the patched entry point when inside patch()
+            ok, _chunks, nrows, _ = fn(conn, df, op["table"], **({"database": op["database"], "schema": op["schema"]} if op.get("database") else {}))
+            return {"ok": bool(ok), "rows": [[nrows]], "rowcount": nrows}
         if k == "commit":
             conn.commit()
             return {"ok": True}
